@@ -315,6 +315,7 @@ func c14Run(c *Ctx, i int, r *gen.R) {
 		x := rds[r.Intn(len(rds))]
 		cs.Renders = append(cs.Renders, x.name)
 		out, err := x.f()
+		c.Keep(out, x.name)
 		c.Rec.Count("renders", 1)
 		if prev, ok := first[x.format]; ok {
 			c.Rec.Count("outputs_compared_with_first_of_format", 1)
@@ -384,6 +385,7 @@ func c14Long(c *Ctx, i int, r *gen.R) {
 	for k := 0; k < rounds; k++ {
 		x := kinds[pat[k%len(pat)]]
 		out, err := x.f()
+		c.Keep(out, x.name)
 		c.Rec.Count("renders", 1)
 		if err != nil {
 			c.Rec.Violate("long-sequence:render-fails:"+x.name, fmt.Sprintf("render #%d (%s) of a well-formed table failed: %v", k+1, x.name, err), desc)
@@ -637,6 +639,7 @@ func c14TwinHistory(c *Ctx, i int, r *gen.R) {
 			log = append(log, "render: "+rt.name)
 			desc["history"] = log
 			out, err := rt.live()
+			c.Keep(out, rt.name)
 			twin := newC14World()
 			for _, op := range ops {
 				op.do(twin)
